@@ -1,4 +1,848 @@
-//! C11 — stub, replaced when the property's harness lands.
-use crate::util::{Em, Rng};
+//! C11 — least-squares estimators: elastic net / lasso / ridge (single and multi-task) and OLS.
+//!
+//! Correspondence ops (model = `Model/LeastSquares.lean`, bit-exact unless marked `~`):
+//!   gap   duality_gap            (hook)      cd    coordinate_descent (hook)
+//!   fit   ElasticNet::fit        (public)    obj   the documented objective (harness' own formula)
+//!   bst   block_soft_thresholding(hook)      gapm  duality_gap_mtl (hook, `~`)
+//!   bcd   block_coordinate_descent (hook, tol = 0 so the sweep count is fixed, `~`)
+//! Oracle-only ops (`#enet`, `#ols`, `#mtl`): the certificates of the property recomputed from first
+//! principles on models fitted through the public API on offset / scaled / constant-column /
+//! collinear-but-regularised designs.
+use crate::util::*;
+use linfa::traits::Fit;
+use linfa::Dataset;
+use linfa_elasticnet::verif_hooks_c11 as hk;
+use linfa_elasticnet::{ElasticNet, MultiTaskElasticNet};
+use linfa_linear::LinearRegression;
+use ndarray::{Array1, Array2};
 
-pub fn run(_em: &mut Em, _rng: &mut Rng) {}
+fn canon(x: f64) -> f64 {
+    x + 0.0
+}
+fn sh(x: f64) -> String {
+    hex64c(canon(x))
+}
+fn sht(x: f64) -> String {
+    format!("~{}", hex64c(canon(x)))
+}
+fn rows_hex(x: &Array2<f64>) -> String {
+    list2(x.rows().into_iter().map(|r| r.to_vec()), |v| hex64(v))
+}
+fn vec_hex(v: &Array1<f64>) -> String {
+    list(v.iter().copied(), hex64)
+}
+
+// ------------------------------------------------------------------ first-principles pieces
+
+fn matvec(x: &Array2<f64>, w: &[f64]) -> Vec<f64> {
+    (0..x.nrows()).map(|i| (0..x.ncols()).map(|j| x[[i, j]] * w[j]).sum::<f64>()).collect()
+}
+fn col(x: &Array2<f64>, j: usize) -> Vec<f64> {
+    (0..x.nrows()).map(|i| x[[i, j]]).collect()
+}
+fn dot(a: &[f64], b: &[f64]) -> f64 {
+    a.iter().zip(b).map(|(x, y)| x * y).sum()
+}
+/// n-scaled objective ½‖y − Xw − b‖² + l1‖w‖₁ + ½ l2‖w‖²  (= n × the documented objective)
+fn objective(x: &Array2<f64>, y: &[f64], w: &[f64], b: f64, l1: f64, l2: f64) -> f64 {
+    let xw = matvec(x, w);
+    let sq: f64 = y.iter().zip(&xw).map(|(yi, xi)| (yi - xi - b) * (yi - xi - b)).sum();
+    0.5 * sq + l1 * w.iter().map(|v| v.abs()).sum::<f64>() + 0.5 * l2 * dot(w, w)
+}
+/// the duality gap of `algorithm.rs` written out naively (y = centred target, r = y − Xw)
+fn gap_naive(x: &Array2<f64>, y: &[f64], w: &[f64], r: &[f64], l1: f64, l2: f64) -> f64 {
+    let dn = dual_norm(x, w, r, l2);
+    gap_with_const(y, w, r, l1, l2, if dn > l1 { l1 / dn } else { 1.0 })
+}
+fn dual_norm(x: &Array2<f64>, w: &[f64], r: &[f64], l2: f64) -> f64 {
+    (0..x.ncols()).map(|j| (dot(&col(x, j), r) - l2 * w[j]).abs()).fold(0.0, f64::max)
+}
+fn gap_with_const(y: &[f64], w: &[f64], r: &[f64], l1: f64, l2: f64, c: f64) -> f64 {
+    let rn = dot(r, r);
+    let wn = dot(w, w);
+    0.5 * rn * (1.0 + c * c) + l1 * w.iter().map(|v| v.abs()).sum::<f64>() - c * dot(r, y) + 0.5 * l2 * (1.0 + c * c) * wn
+}
+/// reference solver: cyclic coordinate descent on *centred* columns, tight tolerance.
+/// Only ever used as a candidate `w'` / `b'`, so its precision cannot cause a false alarm.
+fn ref_enet(x: &Array2<f64>, y: &[f64], l1: f64, l2: f64, icpt: bool) -> (Vec<f64>, f64) {
+    let (n, p) = x.dim();
+    let ym = if icpt { y.iter().sum::<f64>() / n as f64 } else { 0.0 };
+    let xm: Vec<f64> = (0..p).map(|j| if icpt { col(x, j).iter().sum::<f64>() / n as f64 } else { 0.0 }).collect();
+    let cols: Vec<Vec<f64>> = (0..p).map(|j| col(x, j).iter().map(|v| v - xm[j]).collect()).collect();
+    let nrm: Vec<f64> = cols.iter().map(|c| dot(c, c)).collect();
+    let mut r: Vec<f64> = y.iter().map(|v| v - ym).collect();
+    let ynorm = dot(&r, &r).sqrt().max(1e-300);
+    let mut w = vec![0.0; p];
+    for _ in 0..20000 {
+        let mut moved: f64 = 0.0;
+        for j in 0..p {
+            if nrm[j] + l2 <= 0.0 || nrm[j] == 0.0 {
+                continue;
+            }
+            let old = w[j];
+            let tmp = dot(&cols[j], &r) + nrm[j] * old;
+            let new = tmp.signum() * (tmp.abs() - l1).max(0.0) / (nrm[j] + l2);
+            if new != old {
+                for i in 0..n {
+                    r[i] -= (new - old) * cols[j][i];
+                }
+                w[j] = new;
+            }
+            moved = moved.max((new - old).abs() * nrm[j].sqrt());
+        }
+        if moved <= 1e-15 * ynorm {
+            break;
+        }
+    }
+    let b = if icpt { ym - dot(&xm, &w) } else { 0.0 };
+    (w, b)
+}
+
+struct EnetCase {
+    x: Array2<f64>,
+    y: Array1<f64>,
+    l1r: f64,
+    pen: f64,
+    tol: f64,
+    max: u32,
+    icpt: bool,
+}
+
+fn uncentred(x: &Array2<f64>) -> bool {
+    let n = x.nrows() as f64;
+    (0..x.ncols()).any(|j| {
+        let c = col(x, j);
+        let m = c.iter().sum::<f64>() / n;
+        let s = c.iter().map(|v| v.abs()).fold(0.0, f64::max);
+        m.abs() > 1e-12 * s.max(1e-300)
+    })
+}
+
+/// The property's predicate on one fitted elastic net (w, b, gap, steps).
+fn oracle_enet(ctx: &mut Ctx, em_counts: &mut Vec<String>, c: &EnetCase, w: &[f64], b: f64, gap: f64, steps: u32, kind: &str) {
+    let (n, p) = c.x.dim();
+    let nf = n as f64;
+    let l1 = c.l1r * c.pen * nf;
+    let l2 = (1.0 - c.l1r) * c.pen * nf;
+    let y: Vec<f64> = c.y.to_vec();
+    let yc: Vec<f64> = y.iter().map(|v| v - b).collect();
+    let s = dot(&yc, &yc);
+    let cen = if c.icpt && uncentred(&c.x) { "uncentred" } else { "centred" };
+    let class = format!("{}:features={}", kind, cen);
+    ctx.require(w.iter().all(|v| v.is_finite()) && b.is_finite() && gap.is_finite(), "finite", &class, || format!("w={:?} b={} gap={}", w, b, gap));
+    if !(w.iter().all(|v| v.is_finite()) && gap.is_finite()) {
+        return;
+    }
+    if !(steps < c.max && gap < c.tol * s) {
+        // the loop did not `break` on `gap < tol·‖y‖²` (budget not large enough, or all-zero
+        // target): outside the quantifier.  `steps == max` is counted as not converged because the
+        // public API cannot tell a break in the last sweep from an exhausted budget (the reported
+        // gap may then be stale or the initial `1 + tol`).
+        em_counts.push(format!("{}:nonconverged", kind));
+        return;
+    }
+    em_counts.push(format!("{}:converged:{}", kind, cen));
+    let xw = matvec(&c.x, w);
+    let r: Vec<f64> = yc.iter().zip(&xw).map(|(a, b)| a - b).collect();
+    let slack = 1e-9 * s + 1e-12;
+    // (1) the reported gap is the gap of the returned point
+    // With l1 = 0 the formula is discontinuous at Xᵀr − l2·w = 0 (scaling constant 0 vs 1): when the
+    // implementation's running residual is exactly stationary and the recomputed one is so only up
+    // to rounding, either branch is the gap of the result.
+    let g2 = gap_naive(&c.x, &yc, w, &r, l1, l2);
+    let xscale: f64 = (0..p).map(|j| dot(&col(&c.x, j), &col(&c.x, j)).sqrt()).fold(0.0, f64::max);
+    let near_stationary = l1 == 0.0 && dual_norm(&c.x, w, &r, l2) <= 1e-9 * xscale * (s.sqrt() + 1e-300);
+    let g1 = gap_with_const(&yc, w, &r, l1, l2, 1.0);
+    let close = |a: f64, b: f64| (a - b).abs() <= 1e-6 * s + 1e-9 * b.abs() + 1e-12;
+    ctx.require(close(gap, g2) || (near_stationary && close(gap, g1)), "gap_is_gap_of_result", &class, || format!("reported gap {} but recomputed {}", gap, g2));
+    // (2) non-negative
+    ctx.require(gap >= -slack, "gap_nonneg", &class, || format!("gap {}", gap));
+    // (3) no perturbation of the coefficients lowers the objective by more than the gap
+    let p0 = objective(&c.x, &y, w, b, l1, l2);
+    let (wr, _) = ref_enet(&c.x, &yc, l1, l2, false);
+    let mut cands: Vec<Vec<f64>> = vec![wr];
+    for j in 0..p {
+        for d in [1e-1, 1e-3, 1e-6] {
+            for sgn in [-1.0, 1.0] {
+                let mut v = w.to_vec();
+                v[j] += sgn * d * (w[j].abs() + 1.0);
+                cands.push(v);
+            }
+        }
+        let mut v = w.to_vec();
+        v[j] = 0.0;
+        cands.push(v);
+    }
+    for v in &cands {
+        let pv = objective(&c.x, &y, v, b, l1, l2);
+        if !(p0 - pv <= gap.max(0.0) + slack + 1e-12 * p0.abs()) {
+            ctx.fail("coef_suboptimality_le_gap", &class, format!("P(w)={} P(w')={} gap={} w={:?} w'={:?}", p0, pv, gap, w, v));
+            break;
+        }
+    }
+    // (4) jointly in the intercept
+    if c.icpt {
+        let bstar = (0..n).map(|i| y[i] - xw[i]).sum::<f64>() / nf;
+        let loss_b = 0.5 * nf * (b - bstar) * (b - bstar);
+        let (wj, bj) = ref_enet(&c.x, &y, l1, l2, true);
+        let pj = objective(&c.x, &y, &wj, bj, l1, l2);
+        let worst = loss_b.max(p0 - pj);
+        ctx.require(worst <= gap.max(0.0) + slack + 1e-12 * p0.abs(), "intercept_jointly_optimal", &class, || {
+            format!("objective can be lowered by {} (intercept alone: {}) but gap={}; b={} best b for w={} joint optimum b={} w={:?} vs w={:?}", worst, loss_b, gap, b, bstar, bj, wj, w)
+        });
+    }
+    // (5) coefficients under the l1 threshold are exactly zero
+    let wmax = w.iter().map(|v| v.abs()).fold(0.0, f64::max);
+    if c.max >= 2 && steps < c.max - 1 && wmax > 1e-12 {
+        let thr = nf * c.l1r * c.pen;
+        for j in 0..p {
+            if w[j] == 0.0 {
+                continue;
+            }
+            let cj = col(&c.x, j);
+            let tmp = dot(&cj, &r) + dot(&cj, &cj) * w[j];
+            let cross: f64 = (0..p).filter(|k| *k != j).map(|k| dot(&cj, &col(&c.x, k)).abs()).sum();
+            let sl = c.tol * wmax * cross + 1e-9 * (tmp.abs() + thr) + 1e-300;
+            ctx.require(tmp.abs() >= thr - sl, "zero_below_l1_threshold", &class, || format!("w[{}]={} although |x_j.r_j|={} < n*l1_ratio*penalty={}", j, w[j], tmp.abs(), thr));
+        }
+    }
+}
+
+// ------------------------------------------------------------------ generators
+
+fn pick_f(rng: &mut Rng, xs: &[f64]) -> f64 {
+    *rng.pick(xs)
+}
+
+/// small-integer design; `kind` 0 centred-symmetric, 1 plain, 2 offset, 3 constant column, 4 collinear, 5 zero column
+fn gen_design(rng: &mut Rng, n: usize, p: usize, kind: usize) -> Array2<f64> {
+    let mut x = Array2::<f64>::zeros((n, p));
+    match kind {
+        0 => {
+            // rows come in ± pairs (plus a zero row if n is odd): every column sums to exactly 0
+            for i in 0..n / 2 {
+                for j in 0..p {
+                    let v = rng.range(-4, 4) as f64;
+                    x[[2 * i, j]] = v;
+                    x[[2 * i + 1, j]] = -v;
+                }
+            }
+        }
+        _ => {
+            for i in 0..n {
+                for j in 0..p {
+                    x[[i, j]] = rng.range(-4, 4) as f64;
+                }
+            }
+        }
+    }
+    match kind {
+        2 => {
+            for j in 0..p {
+                if j == 0 || rng.coin() {
+                    let off = *rng.pick(&[3.0, 10.0, 100.0, -25.0]);
+                    for i in 0..n {
+                        x[[i, j]] += off;
+                    }
+                }
+            }
+        }
+        3 => {
+            let j = rng.below(p);
+            let cst = *rng.pick(&[1.0, 2.0, -3.0, 0.5]);
+            for i in 0..n {
+                x[[i, j]] = cst;
+            }
+        }
+        4 if p >= 3 => {
+            for i in 0..n {
+                x[[i, p - 1]] = x[[i, 0]] + x[[i, 1]];
+            }
+        }
+        5 => {
+            let j = rng.below(p);
+            for i in 0..n {
+                x[[i, j]] = 0.0;
+            }
+        }
+        _ => {}
+    }
+    x
+}
+
+fn gen_target(rng: &mut Rng, x: &Array2<f64>, integer: bool) -> Array1<f64> {
+    let (n, p) = x.dim();
+    let beta: Vec<f64> = (0..p).map(|_| if rng.chance(1, 3) { 0.0 } else { rng.range(-3, 3) as f64 }).collect();
+    let b0 = rng.range(-5, 5) as f64;
+    let xw = matvec(x, &beta);
+    Array1::from_shape_fn(n, |i| {
+        let noise = if integer { rng.range(-2, 2) as f64 } else { (rng.unit() - 0.5) * 2.0 };
+        xw[i] + b0 + noise
+    })
+}
+
+fn scale_columns(rng: &mut Rng, x: &mut Array2<f64>) {
+    for j in 0..x.ncols() {
+        let k = rng.range(-3, 3);
+        let f = 10f64.powi(k as i32);
+        for i in 0..x.nrows() {
+            x[[i, j]] *= f;
+        }
+    }
+}
+
+const L1RS: [f64; 6] = [0.0, 0.25, 0.5, 0.9, 1.0, 1.0];
+const PENS: [f64; 8] = [0.0, 0.001, 0.01, 0.125, 0.3, 1.0, 2.5, 10.0];
+const TOLS: [f64; 4] = [1e-4, 1e-6, 1e-9, 1e-2];
+
+// ------------------------------------------------------------------ ops
+
+fn op_gap(em: &mut Em, rng: &mut Rng) {
+    let nmax = if rng.chance(1, 4) { 20 } else { 7 };
+    let n = 1 + rng.below(nmax);
+    let pmax = if rng.chance(1, 5) { 10 } else { 4 };
+    let p = 1 + rng.below(pmax);
+    let kind = rng.below(6);
+    let x = gen_design(rng, n, p, kind);
+    let ints = rng.coin();
+    let mk = |rng: &mut Rng, len: usize| Array1::from_shape_fn(len, |_| if ints { rng.range(-5, 5) as f64 } else { (rng.unit() - 0.5) * 8.0 });
+    let y = mk(rng, n);
+    let mut w = mk(rng, p);
+    for j in 0..p {
+        if rng.chance(1, 3) {
+            w[j] = 0.0;
+        }
+    }
+    let r = if rng.coin() {
+        // the true residual
+        let xw = matvec(&x, &w.to_vec());
+        Array1::from_shape_fn(n, |i| y[i] - xw[i])
+    } else {
+        mk(rng, n)
+    };
+    let l1r = pick_f(rng, &L1RS);
+    let pen = pick_f(rng, &PENS);
+    em.count(&format!("gap:p{}", if p == 1 { "=1" } else { ">1" }));
+    em.count(&format!("gap:n{}", if n >= 8 { ">=8" } else { "<8" }));
+    let op = format!("gap X={} y={} w={} r={} l1r={} pen={}", rows_hex(&x), vec_hex(&y), vec_hex(&w), vec_hex(&r), hex64(l1r), hex64(pen));
+    em.case(op, |ctx| {
+        let g = hk::duality_gap(x.view(), y.view(), w.view(), r.view(), l1r, pen);
+        let nf = n as f64;
+        let g2 = gap_naive(&x, &y.to_vec(), &w.to_vec(), &r.to_vec(), l1r * pen * nf, (1.0 - l1r) * pen * nf);
+        let sc = dot(&y.to_vec(), &y.to_vec()) + dot(&r.to_vec(), &r.to_vec()) + g2.abs() + 1.0;
+        ctx.require((g - g2).abs() <= 1e-9 * sc * (1.0 + pen * nf * (1.0 + dot(&w.to_vec(), &w.to_vec()))), "gap_formula", "gap", || format!("duality_gap={} naive={}", g, g2));
+        format!("ok {}", sh(g))
+    });
+}
+
+fn gen_enet_case(rng: &mut Rng, big: bool, lattice_y: bool) -> (EnetCase, usize) {
+    let p = 1 + rng.below(if big { 6 } else { 4 });
+    let n = p + 1 + rng.below(if big { 30 } else { 10 });
+    let kind = rng.below(6);
+    let x = gen_design(rng, n, p, kind);
+    let y = gen_target(rng, &x, lattice_y);
+    let mut l1r = pick_f(rng, &L1RS);
+    let mut pen = pick_f(rng, &PENS);
+    if kind == 4 && (pen == 0.0 || l1r == 1.0) {
+        // collinear designs only with an l2 part ("collinear-but-regularised")
+        pen = 0.3;
+        l1r = 0.5;
+    }
+    let tol = pick_f(rng, &TOLS);
+    let max = *rng.pick(&[1u32, 2, 3, 5, 50, 1000, 1000, 20000, 20000]);
+    (EnetCase { x, y, l1r, pen, tol, max, icpt: rng.chance(2, 3) }, kind)
+}
+
+fn kind_name(k: usize) -> &'static str {
+    ["symmetric", "plain", "offset", "constcol", "collinear", "zerocol"][k]
+}
+
+fn op_cd(em: &mut Em, rng: &mut Rng) {
+    let big = rng.chance(1, 4);
+    let lat = rng.coin();
+    let (c, kind) = gen_enet_case(rng, big, lat);
+    em.count(&format!("cd:design={}", kind_name(kind)));
+    let op = format!("cd X={} y={} tol={} max={} l1r={} pen={}", rows_hex(&c.x), vec_hex(&c.y), hex64(c.tol), c.max, hex64(c.l1r), hex64(c.pen));
+    let mut counts = vec![];
+    em.case_valid(op, "cd", |ctx| {
+        let (w, g, s) = hk::coordinate_descent(c.x.view(), c.y.view(), c.tol, c.max, c.l1r, c.pen);
+        // as called by `fit` without intercept
+        let c0 = EnetCase { x: c.x.clone(), y: c.y.clone(), icpt: false, ..c };
+        oracle_enet(ctx, &mut counts, &c0, &w.to_vec(), 0.0, g, s, "cd");
+        format!("ok w={} gap={} steps={}", list(w.iter().copied(), sh), sh(g), s)
+    });
+    for k in counts {
+        em.count(&k);
+    }
+}
+
+fn op_fit(em: &mut Em, rng: &mut Rng) {
+    // integer targets: the mean is exact whatever the summation order of `mean_axis`
+    let big = rng.chance(1, 4);
+    let (c, kind) = gen_enet_case(rng, big, true);
+    em.count(&format!("fit:design={}", kind_name(kind)));
+    em.count(&format!("fit:icpt={}", c.icpt as u8));
+    let op = format!("fit X={} y={} tol={} max={} l1r={} pen={} icpt={}", rows_hex(&c.x), vec_hex(&c.y), hex64(c.tol), c.max, hex64(c.l1r), hex64(c.pen), c.icpt as u8);
+    let mut counts = vec![];
+    em.case_valid(op, "fit", |ctx| {
+        let ds = Dataset::new(c.x.clone(), c.y.clone());
+        let m = ElasticNet::params().penalty(c.pen).l1_ratio(c.l1r).tolerance(c.tol).max_iterations(c.max).with_intercept(c.icpt).fit(&ds);
+        match m {
+            Err(e) => {
+                ctx.fail("fit_ok", "fit", format!("{:?}", e));
+                format!("err {:?}", e)
+            }
+            Ok(m) => {
+                let w = m.hyperplane().to_vec();
+                oracle_enet(ctx, &mut counts, &c, &w, m.intercept(), m.duality_gap(), m.n_steps(), "enet");
+                format!("ok b={} w={} gap={} steps={}", sh(m.intercept()), list(w.iter().copied(), sh), sh(m.duality_gap()), m.n_steps())
+            }
+        }
+    });
+    for k in counts {
+        em.count(&k);
+    }
+}
+
+fn op_obj(em: &mut Em, rng: &mut Rng) {
+    let n = 1 + rng.below(9);
+    let p = 1 + rng.below(4);
+    let kind = rng.below(6);
+    let x = gen_design(rng, n, p, kind);
+    let y = Array1::from_shape_fn(n, |_| rng.range(-6, 6) as f64);
+    let w = Array1::from_shape_fn(p, |_| rng.range(-8, 8) as f64 / 4.0);
+    let b = rng.range(-8, 8) as f64 / 2.0;
+    let l1r = *rng.pick(&[0.0, 0.25, 0.5, 1.0]);
+    let pen = *rng.pick(&[0.0, 0.125, 0.5, 2.0]);
+    let op = format!("obj X={} y={} w={} b={} l1r={} pen={}", rows_hex(&x), vec_hex(&y), vec_hex(&w), hex64(b), hex64(l1r), hex64(pen));
+    em.case(op, |_ctx| {
+        let nf = n as f64;
+        let o = objective(&x, &y.to_vec(), &w.to_vec(), b, l1r * pen * nf, (1.0 - l1r) * pen * nf);
+        let s = 2.0 * objective(&x, &y.to_vec(), &w.to_vec(), b, 0.0, 0.0);
+        format!("ok obj={} sse={}", sh(o), sh(s))
+    });
+}
+
+fn op_bst(em: &mut Em, rng: &mut Rng) {
+    let tmax = if rng.chance(1, 5) { 12 } else { 4 };
+    let t = 1 + rng.below(tmax);
+    let mode = rng.below(4);
+    let x = Array1::from_shape_fn(t, |_| match mode {
+        0 => 0.0,
+        1 => rng.range(-4, 4) as f64,
+        _ => (rng.unit() - 0.5) * 6.0,
+    });
+    let nrm = x.dot(&x).sqrt();
+    let thr = match rng.below(5) {
+        0 => 0.0,
+        1 => nrm,
+        2 => nrm * 2.0,
+        _ => rng.unit() * 4.0,
+    };
+    em.count(&format!("bst:thr{}", if thr == 0.0 { "=0" } else if thr == nrm { "=norm" } else { "other" }));
+    let class = format!("bst:threshold={},norm={}", if thr == 0.0 { "0" } else { "pos" }, if nrm == 0.0 { "0" } else { "pos" });
+    let op = format!("bst x={} thr={}", vec_hex(&x), hex64(thr));
+    em.case_valid(op, &class, |ctx| {
+        let out = hk::block_soft_thresholding(x.view(), thr);
+        // prox of thr·‖·‖₂ : (1 − thr/‖x‖)₊ x, and 0 at x = 0
+        let ok = out.iter().zip(x.iter()).all(|(o, xi)| {
+            let want = if nrm <= thr { 0.0 } else { xi * (1.0 - thr / nrm) };
+            o.is_finite() && (o - want).abs() <= 1e-12 * (1.0 + xi.abs())
+        });
+        ctx.require(ok, "block_soft_is_prox", &class, || format!("x={:?} thr={} -> {:?}", x.to_vec(), thr, out.to_vec()));
+        format!("ok {}", list(out.iter().copied(), sh))
+    });
+}
+
+fn gen_mtl(rng: &mut Rng, lattice: bool) -> (Array2<f64>, Array2<f64>, usize) {
+    let p = 1 + rng.below(4);
+    let n = p + 1 + rng.below(8);
+    let t = 1 + rng.below(3);
+    let kind = rng.below(6);
+    let x = gen_design(rng, n, p, kind);
+    let mut y = Array2::<f64>::zeros((n, t));
+    for k in 0..t {
+        let yk = gen_target(rng, &x, lattice);
+        for i in 0..n {
+            y[[i, k]] = yk[i];
+        }
+    }
+    (x, y, kind)
+}
+
+fn dual_norm_mtl(x: &Array2<f64>, w: &Array2<f64>, r: &Array2<f64>, l2: f64) -> f64 {
+    let (n, p) = x.dim();
+    let t = r.ncols();
+    let mut dn: f64 = 0.0;
+    for j in 0..p {
+        let mut s = 0.0;
+        for k in 0..t {
+            let v: f64 = (0..n).map(|i| x[[i, j]] * r[[i, k]]).sum::<f64>() - l2 * w[[j, k]];
+            s += v * v;
+        }
+        dn = dn.max(s.sqrt());
+    }
+    dn
+}
+fn gap_mtl_const(y: &Array2<f64>, w: &Array2<f64>, r: &Array2<f64>, l1: f64, l2: f64, c: f64) -> f64 {
+    let (p, t) = w.dim();
+    let rn: f64 = r.iter().map(|v| v * v).sum();
+    let wn: f64 = w.iter().map(|v| v * v).sum();
+    let l21: f64 = (0..p).map(|j| (0..t).map(|k| w[[j, k]] * w[[j, k]]).sum::<f64>().sqrt()).sum();
+    let ry: f64 = r.iter().zip(y.iter()).map(|(a, b)| a * b).sum();
+    0.5 * rn * (1.0 + c * c) + l1 * l21 - c * ry + 0.5 * l2 * (1.0 + c * c) * wn
+}
+fn gap_mtl_naive(x: &Array2<f64>, y: &Array2<f64>, w: &Array2<f64>, r: &Array2<f64>, l1: f64, l2: f64) -> f64 {
+    let dn = dual_norm_mtl(x, w, r, l2);
+    gap_mtl_const(y, w, r, l1, l2, if dn > l1 { l1 / dn } else { 1.0 })
+}
+
+fn objective_mtl(x: &Array2<f64>, y: &Array2<f64>, w: &Array2<f64>, b: &[f64], l1: f64, l2: f64) -> f64 {
+    let (n, p) = x.dim();
+    let t = y.ncols();
+    let mut sq = 0.0;
+    for i in 0..n {
+        for k in 0..t {
+            let e = y[[i, k]] - (0..p).map(|j| x[[i, j]] * w[[j, k]]).sum::<f64>() - b[k];
+            sq += e * e;
+        }
+    }
+    let l21: f64 = (0..p).map(|j| (0..t).map(|k| w[[j, k]] * w[[j, k]]).sum::<f64>().sqrt()).sum();
+    0.5 * sq + l1 * l21 + 0.5 * l2 * w.iter().map(|v| v * v).sum::<f64>()
+}
+
+fn op_gapm(em: &mut Em, rng: &mut Rng) {
+    let (x, y, _) = gen_mtl(rng, true);
+    let (n, p) = x.dim();
+    let t = y.ncols();
+    let w = Array2::from_shape_fn((p, t), |_| if rng.chance(1, 4) { 0.0 } else { rng.range(-4, 4) as f64 });
+    let r = if rng.coin() { &y - &x.dot(&w) } else { Array2::from_shape_fn((n, t), |_| rng.range(-5, 5) as f64) };
+    let l1r = *rng.pick(&[0.0, 0.25, 0.5, 1.0]);
+    let pen = *rng.pick(&[0.0, 0.125, 0.5, 2.0, 8.0]);
+    let op = format!("gapm t={} X={} Y={} W={} R={} l1r={} pen={}", t, rows_hex(&x), rows_hex(&y), rows_hex(&w), rows_hex(&r), hex64(l1r), hex64(pen));
+    em.case(op, |ctx| {
+        let g = hk::duality_gap_mtl(x.view(), y.view(), w.view(), r.view(), l1r, pen);
+        let nf = n as f64;
+        let g2 = gap_mtl_naive(&x, &y, &w, &r, l1r * pen * nf, (1.0 - l1r) * pen * nf);
+        ctx.require((g - g2).abs() <= 1e-9 * (1.0 + g2.abs() + y.iter().map(|v| v * v).sum::<f64>()), "gap_formula", "gapm", || format!("duality_gap_mtl={} naive={}", g, g2));
+        format!("ok {}", sht(g))
+    });
+}
+
+fn op_bcd(em: &mut Em, rng: &mut Rng) {
+    let lat = rng.coin();
+    let (x, y, kind) = gen_mtl(rng, lat);
+    let t = y.ncols();
+    let l1r = *rng.pick(&[0.0, 0.25, 0.5, 1.0]);
+    let pen = *rng.pick(&[0.0, 0.125, 0.5, 2.0]);
+    let max = 1 + rng.below(6) as u32;
+    em.count(&format!("bcd:design={}", kind_name(kind)));
+    let class = format!("bcd:l1={}", if l1r * pen == 0.0 { "0" } else { "pos" });
+    // tol = -1: `gap < -‖Y‖²` never holds, so exactly `max` sweeps are made on both sides (the
+    // sweep count of a tolerance-compared run must not hang on a float comparison)
+    let op = format!("bcd t={} X={} Y={} tol={} max={} l1r={} pen={}", t, rows_hex(&x), rows_hex(&y), hex64(-1.0), max, hex64(l1r), hex64(pen));
+    em.case_valid(op, &class, |ctx| {
+        let (w, g, s) = hk::block_coordinate_descent(x.view(), y.view(), -1.0, max, l1r, pen);
+        ctx.require(w.iter().all(|v| v.is_finite()), "finite", &class, || format!("coefficients {:?}", w));
+        // with l1 = 0 the gap formula is discontinuous at Xᵀr − l2·w = 0 (constant 0 or 1), a float tie
+        // after a tolerance-compared descent: the value is then not compared here (the formula itself is
+        // compared exactly, both branches, by `gapm`)
+        let gs = if l1r * pen == 0.0 { "-".to_string() } else { sht(g) };
+        format!("ok w={} gap={} steps={}", list2(w.rows().into_iter().map(|r| r.to_vec()), sht), gs, s)
+    });
+}
+
+// ------------------------------------------------------------------ oracle-only streams
+
+fn op_enet_oracle(em: &mut Em, rng: &mut Rng) {
+    let (mut c, kind) = gen_enet_case(rng, true, false);
+    c.max = *rng.pick(&[1000u32, 20000, 100000]);
+    let scaled = rng.chance(1, 3);
+    if scaled {
+        scale_columns(rng, &mut c.x);
+    }
+    em.count(&format!("enet:design={}{}", kind_name(kind), if scaled { "+scaled" } else { "" }));
+    let op = format!("#enet X={} y={} tol={} max={} l1r={} pen={} icpt={}", rows_hex(&c.x), vec_hex(&c.y), hex64(c.tol), c.max, hex64(c.l1r), hex64(c.pen), c.icpt as u8);
+    let mut counts = vec![];
+    em.case_valid(op, "enet", |ctx| {
+        let ds = Dataset::new(c.x.clone(), c.y.clone());
+        match ElasticNet::params().penalty(c.pen).l1_ratio(c.l1r).tolerance(c.tol).max_iterations(c.max).with_intercept(c.icpt).fit(&ds) {
+            Err(e) => ctx.fail("fit_ok", "enet", format!("{:?}", e)),
+            Ok(m) => oracle_enet(ctx, &mut counts, &c, &m.hyperplane().to_vec(), m.intercept(), m.duality_gap(), m.n_steps(), "enet"),
+        }
+        "-".to_string()
+    });
+    for k in counts {
+        em.count(&k);
+    }
+}
+
+fn op_ols_oracle(em: &mut Em, rng: &mut Rng) {
+    let p = 1 + rng.below(5);
+    let n = p + 2 + rng.below(25);
+    let kind = *rng.pick(&[0usize, 1, 1, 2, 2]);
+    let mut x = gen_design(rng, n, p, kind);
+    let scaled = rng.chance(1, 3);
+    if scaled {
+        scale_columns(rng, &mut x);
+    }
+    let lat = rng.coin();
+    let y = gen_target(rng, &x, lat);
+    let icpt = rng.chance(2, 3);
+    // full column rank of [X 1] (resp. X) is part of the quantifier: decide it exactly on the integer design
+    let xi = gen_rank_matrix(&x, icpt);
+    if !full_rank(xi) {
+        em.count("ols:rank_deficient_skipped");
+        return;
+    }
+    em.count(&format!("ols:design={}{}", kind_name(kind), if scaled { "+scaled" } else { "" }));
+    let class = format!("ols:icpt={}", icpt as u8);
+    let op = format!("#ols X={} y={} icpt={}", rows_hex(&x), vec_hex(&y), icpt as u8);
+    em.case_valid(op, &class, |ctx| {
+        let ds = Dataset::new(x.clone(), y.clone());
+        match LinearRegression::new().with_intercept(icpt).fit(&ds) {
+            Err(e) => ctx.fail("fit_ok", &class, format!("{:?}", e)),
+            Ok(m) => {
+                let w = m.params().to_vec();
+                let b = m.intercept();
+                let yv = y.to_vec();
+                let xw = matvec(&x, &w);
+                let r: Vec<f64> = (0..n).map(|i| yv[i] - xw[i] - b).collect();
+                let ynorm = dot(&yv, &yv).sqrt().max(1e-300);
+                for j in 0..p {
+                    let cj = col(&x, j);
+                    let cn = dot(&cj, &cj).sqrt();
+                    ctx.require(dot(&cj, &r).abs() <= 1e-8 * cn * ynorm, "residual_orthogonal_to_columns", &class, || format!("x_{}.r = {} (|x_j|={} |y|={})", j, dot(&cj, &r), cn, ynorm));
+                }
+                if icpt {
+                    ctx.require(r.iter().sum::<f64>().abs() <= 1e-8 * (n as f64).sqrt() * ynorm, "residual_orthogonal_to_ones", &class, || format!("sum r = {}", r.iter().sum::<f64>()));
+                } else {
+                    ctx.require(b == 0.0, "no_intercept", &class, || format!("b={}", b));
+                }
+                let s0 = dot(&r, &r);
+                for j in 0..=p {
+                    for d in [1e-2, 1e-5] {
+                        for sg in [-1.0, 1.0] {
+                            let mut v = w.clone();
+                            let mut bb = b;
+                            if j < p {
+                                v[j] += sg * d * (w[j].abs() + 1.0);
+                            } else if icpt {
+                                bb += sg * d * (b.abs() + 1.0);
+                            }
+                            let s1 = 2.0 * objective(&x, &yv, &v, bb, 0.0, 0.0);
+                            ctx.require(s0 <= s1 + 1e-9 * (s0 + ynorm * ynorm * 1e-3), "no_smaller_sse", &class, || format!("sse {} > perturbed {}", s0, s1));
+                        }
+                    }
+                }
+            }
+        }
+        "-".to_string()
+    });
+}
+
+/// exact rank test over the rationals on the unscaled integer pattern is not available after scaling;
+/// use a pivoted elimination in f64 on column-normalised data with a generous threshold
+fn gen_rank_matrix(x: &Array2<f64>, icpt: bool) -> Vec<Vec<f64>> {
+    let (n, p) = x.dim();
+    let mut cols: Vec<Vec<f64>> = (0..p).map(|j| col(x, j)).collect();
+    if icpt {
+        cols.push(vec![1.0; n]);
+    }
+    for c in cols.iter_mut() {
+        let s = dot(c, c).sqrt();
+        if s > 0.0 {
+            for v in c.iter_mut() {
+                *v /= s;
+            }
+        }
+    }
+    cols
+}
+fn full_rank(mut cols: Vec<Vec<f64>>) -> bool {
+    // modified Gram–Schmidt; rank-deficient if some column loses (almost) all its norm
+    let m = cols.len();
+    for a in 0..m {
+        let na = dot(&cols[a], &cols[a]).sqrt();
+        if na < 1e-6 {
+            return false;
+        }
+        let ca: Vec<f64> = cols[a].iter().map(|v| v / na).collect();
+        for b in a + 1..m {
+            let d = dot(&ca, &cols[b]);
+            for i in 0..ca.len() {
+                cols[b][i] -= d * ca[i];
+            }
+        }
+    }
+    true
+}
+
+fn op_mtl_oracle(em: &mut Em, rng: &mut Rng) {
+    let lat = rng.coin();
+    let (mut x, y, kind) = gen_mtl(rng, lat);
+    let scaled = rng.chance(1, 4);
+    if scaled {
+        scale_columns(rng, &mut x);
+    }
+    let (n, p) = x.dim();
+    let t = y.ncols();
+    let mut l1r = pick_f(rng, &L1RS);
+    let mut pen = pick_f(rng, &PENS);
+    if kind == 4 && (pen == 0.0 || l1r == 1.0) {
+        pen = 0.3;
+        l1r = 0.5;
+    }
+    let tol = pick_f(rng, &TOLS);
+    let max = *rng.pick(&[1000u32, 20000]);
+    let icpt = rng.chance(2, 3);
+    em.count(&format!("mtl:design={}{}", kind_name(kind), if scaled { "+scaled" } else { "" }));
+    em.count(&format!("mtl:l1={}", if l1r * pen == 0.0 { "0" } else { "pos" }));
+    let op = format!("#mtl t={} X={} Y={} tol={} max={} l1r={} pen={} icpt={}", t, rows_hex(&x), rows_hex(&y), hex64(tol), max, hex64(l1r), hex64(pen), icpt as u8);
+    let cen = if icpt && uncentred(&x) { "uncentred" } else { "centred" };
+    let class = format!("mtl:features={}", cen);
+    let class_fin = format!("mtl:l1={}", if l1r * pen == 0.0 { "0" } else { "pos" });
+    let mut counts = vec![];
+    em.case_valid(op, "mtl", |ctx| {
+        let ds = Dataset::new(x.clone(), y.clone());
+        match MultiTaskElasticNet::params().penalty(pen).l1_ratio(l1r).tolerance(tol).max_iterations(max).with_intercept(icpt).fit(&ds) {
+            Err(e) => ctx.fail("fit_ok", "mtl", format!("{:?}", e)),
+            Ok(m) => {
+                let w = m.hyperplane().clone();
+                let b = m.intercept().to_vec();
+                let gap = m.duality_gap();
+                let fin = w.iter().all(|v| v.is_finite()) && gap.is_finite();
+                ctx.require(fin, "finite", &class_fin, || format!("W={:?} gap={}", w, gap));
+                if !fin {
+                    return "-".to_string();
+                }
+                let nf = n as f64;
+                let (l1, l2) = (l1r * pen * nf, (1.0 - l1r) * pen * nf);
+                let yc = Array2::from_shape_fn((n, t), |(i, k)| y[[i, k]] - b[k]);
+                let s: f64 = yc.iter().map(|v| v * v).sum();
+                if !(m.n_steps() < max && gap < tol * s) {
+                    counts.push("mtl:nonconverged".to_string());
+                    return "-".to_string();
+                }
+                counts.push(format!("mtl:converged:{}", cen));
+                let r = &yc - &x.dot(&w);
+                let slack = 1e-9 * s + 1e-12;
+                let g2 = gap_mtl_naive(&x, &yc, &w, &r, l1, l2);
+                // l1 = 0: same discontinuity of the formula as in the single-task oracle
+                let xscale: f64 = (0..p).map(|j| dot(&col(&x, j), &col(&x, j)).sqrt()).fold(0.0, f64::max);
+                let near_stationary = l1 == 0.0 && dual_norm_mtl(&x, &w, &r, l2) <= 1e-9 * xscale * (s.sqrt() + 1e-300);
+                let g1 = gap_mtl_const(&yc, &w, &r, l1, l2, 1.0);
+                let close = |a: f64, b: f64| (a - b).abs() <= 1e-6 * s + 1e-9 * b.abs() + 1e-12;
+                ctx.require(close(gap, g2) || (near_stationary && close(gap, g1)), "gap_is_gap_of_result", &class, || format!("reported {} recomputed {}", gap, g2));
+                ctx.require(gap >= -slack, "gap_nonneg", &class, || format!("gap {}", gap));
+                let p0 = objective_mtl(&x, &y, &w, &b, l1, l2);
+                'outer: for j in 0..p {
+                    for k in 0..t {
+                        for d in [-1e-1, 1e-1, -1e-3, 1e-3, -1e-6, 1e-6] {
+                            let mut v = w.clone();
+                            v[[j, k]] += d * (w[[j, k]].abs() + 1.0);
+                            let pv = objective_mtl(&x, &y, &v, &b, l1, l2);
+                            if !(p0 - pv <= gap.max(0.0) + slack + 1e-12 * p0.abs()) {
+                                ctx.fail("coef_suboptimality_le_gap", &class, format!("P(W)={} P(W')={} gap={}", p0, pv, gap));
+                                break 'outer;
+                            }
+                        }
+                    }
+                    let mut v = w.clone();
+                    for k in 0..t {
+                        v[[j, k]] = 0.0;
+                    }
+                    let pv = objective_mtl(&x, &y, &v, &b, l1, l2);
+                    if !(p0 - pv <= gap.max(0.0) + slack + 1e-12 * p0.abs()) {
+                        ctx.fail("coef_suboptimality_le_gap", &class, format!("P(W)={} P(W with row {} zeroed)={} gap={}", p0, j, pv, gap));
+                        break;
+                    }
+                }
+                if icpt {
+                    let xw = x.dot(&w);
+                    let mut loss = 0.0;
+                    for k in 0..t {
+                        let bs = (0..n).map(|i| y[[i, k]] - xw[[i, k]]).sum::<f64>() / nf;
+                        loss += 0.5 * nf * (b[k] - bs) * (b[k] - bs);
+                    }
+                    ctx.require(loss <= gap.max(0.0) + slack + 1e-12 * p0.abs(), "intercept_jointly_optimal", &class, || format!("re-fitting the intercepts alone lowers the objective by {} but gap={}", loss, gap));
+                }
+            }
+        }
+        "-".to_string()
+    });
+    for k in counts {
+        em.count(&k);
+    }
+}
+
+/// the probe of DESIGN section 8 #9, kept as a fixed first case
+fn op_witness(em: &mut Em) {
+    let x = Array2::from_shape_fn((6, 2), |(i, j)| if j == 0 { 10.0 + i as f64 } else { [3.0, 1.0, 4.0, 1.0, 5.0, 9.0][i] });
+    let y = Array1::from_shape_fn(6, |i| 2.0 * x[[i, 0]] - x[[i, 1]] + 3.0);
+    let c = EnetCase { x, y, l1r: 0.5, pen: 0.0, tol: 1e-4, max: 100000, icpt: true };
+    let op = format!("#enet X={} y={} tol={} max={} l1r={} pen={} icpt=1", rows_hex(&c.x), vec_hex(&c.y), hex64(c.tol), c.max, hex64(c.l1r), hex64(c.pen));
+    let mut counts = vec![];
+    em.case_valid(op, "enet", |ctx| {
+        let ds = Dataset::new(c.x.clone(), c.y.clone());
+        let m = ElasticNet::params().penalty(c.pen).l1_ratio(c.l1r).tolerance(c.tol).max_iterations(c.max).with_intercept(true).fit(&ds).unwrap();
+        oracle_enet(ctx, &mut counts, &c, &m.hyperplane().to_vec(), m.intercept(), m.duality_gap(), m.n_steps(), "enet");
+        "-".to_string()
+    });
+    for k in counts {
+        em.count(&k);
+    }
+}
+
+/// the input of theorem `fit_intercept_not_joint_witness` (Props/C11.lean), replayed on the real code
+fn op_witness_lean(em: &mut Em) {
+    let c = EnetCase { x: Array2::from_shape_fn((3, 1), |(i, _)| (i + 1) as f64), y: Array1::from_shape_fn(3, |i| (i + 1) as f64), l1r: 0.5, pen: 0.0, tol: 1e-4, max: 10, icpt: true };
+    let op = format!("fit X={} y={} tol={} max={} l1r={} pen={} icpt=1", rows_hex(&c.x), vec_hex(&c.y), hex64(c.tol), c.max, hex64(c.l1r), hex64(c.pen));
+    let mut counts = vec![];
+    em.case_valid(op, "fit", |ctx| {
+        let ds = Dataset::new(c.x.clone(), c.y.clone());
+        let m = ElasticNet::params().penalty(c.pen).l1_ratio(c.l1r).tolerance(c.tol).max_iterations(c.max).with_intercept(true).fit(&ds).unwrap();
+        let w = m.hyperplane().to_vec();
+        oracle_enet(ctx, &mut counts, &c, &w, m.intercept(), m.duality_gap(), m.n_steps(), "enet");
+        format!("ok b={} w={} gap={} steps={}", sh(m.intercept()), list(w.iter().copied(), sh), sh(m.duality_gap()), m.n_steps())
+    });
+    for k in counts {
+        em.count(&k);
+    }
+}
+
+pub fn run(em: &mut Em, rng: &mut Rng) {
+    let f = if em.thorough() { 12 } else { 1 };
+    op_witness(em);
+    op_witness_lean(em);
+    for _ in 0..400 * f {
+        op_gap(em, rng);
+    }
+    for _ in 0..700 * f {
+        op_cd(em, rng);
+    }
+    for _ in 0..500 * f {
+        op_fit(em, rng);
+    }
+    for _ in 0..200 * f {
+        op_obj(em, rng);
+    }
+    for _ in 0..250 * f {
+        op_bst(em, rng);
+    }
+    for _ in 0..250 * f {
+        op_gapm(em, rng);
+    }
+    for _ in 0..250 * f {
+        op_bcd(em, rng);
+    }
+    for _ in 0..400 * f {
+        op_enet_oracle(em, rng);
+    }
+    for _ in 0..300 * f {
+        op_ols_oracle(em, rng);
+    }
+    for _ in 0..250 * f {
+        op_mtl_oracle(em, rng);
+    }
+}
